@@ -44,11 +44,15 @@ class Editor:
         texts = dict[str, str]()
         files = dict[str, models.File]()
         queue = collections.deque([os.path.normpath(path)])
+        visited = set[str]()
 
         while queue:
             current_path = queue.popleft()
-            if current_path in texts:
+            # A file may be reached through different spellings (relative and absolute includes).
+            abs_path = os.path.abspath(current_path)
+            if abs_path in visited:
                 continue
+            visited.add(abs_path)
             with open(current_path, newline='') as f:  # no newline translation: keep \r\n as is
                 texts[current_path] = f.read()
             files[current_path] = self._parser.parse(texts[current_path], models.File)
